@@ -312,7 +312,15 @@ func (c *Channel) newResp(m0 []byte, minTime tai64.TAI64N) (*Session, error) {
 // and checks to see if it should become the new prospective session, possibly
 // replacing an existing prospective session.
 func (c *Channel) proposeNewSession(sid [32]byte, newS *Session) (ret *Session) {
-	if s := c.sessions[2].Session; s != nil && bytes.Compare(c.sessions[2].ID[:], sid[:]) < 0 {
+	if s := c.sessions[2].Session; s != nil && !s.IsInit() && !newS.IsInit() && s.InitHelloTime() != newS.InitHelloTime() {
+		// both were created from InitHellos of the peer: its most recent attempt wins.
+		if newS.InitHelloTime().Before(s.InitHelloTime()) {
+			c.log.Debug("not replacing prospective session with an older one")
+			return s
+		}
+		c.log.Debug("replacing prospective session with a newer one", zap.Any("old", s), zap.Any("new", newS))
+		ret = newS
+	} else if s != nil && bytes.Compare(c.sessions[2].ID[:], sid[:]) < 0 {
 		c.log.Debug("not replacing prospective session")
 		return s
 	} else if s != nil {
